@@ -45,6 +45,9 @@ P = {
  "C07": ("Theorems: C07_trysetmin/max_keeps_margin, _keeps_grid, C07_floatlin_le_sound_margin (a witness with margin >= max|c_i| step_i survives every FloatLinLe prune), C07_floatlin_eq_sound_exact (exact equality at grid points, integer variables included), C07_floatlin_sound_margin and C07_propagation_never_fails (any sequence of rows never fails while the witness exists); counterexample: zero margin is not enough. Tie: as C06, plus the API-level stream builds models AROUND a witness and requires solve() != NoSolution.",
          "Lean 4 proof over exact rationals (witness-preservation invariant through any propagation sequence) with bit-exact differential correspondence",
          "FloatLinNe and the reified float helpers are not covered by the theorems; IEEE rounding trusted via correspondence."),
+ "C08": ("Theorems at exact rationals (Model/Opt.lean: the router's decision logic, bound extraction, create_unconstrained_solution, the construction of the root LP from the posted linear rows, apply_lp_solution): C08_fast_path_sound_partial (under the decidable guard fastGuard the fast-path answer is feasible and optimal; the full statement is false: counterexamples per defect class, each replayed on the code), C08_root_lp_is_relaxation (+ C08_root_lp_objective_bound via C09's weak duality), C08_lp_bound_transfer_sound (transferring only the objective bound of a legal optimal certificate loses no solution) with C08_lp_vertex_transfer_counterexample (what the code does: every variable fixed to the vertex), C08_error_only_if_infeasible_partial. Tie: router decision, entry path, fast-path point, registered metadata and the root LP problem (hook H9: columns, A, b, bounds, c as bit patterns) compared exactly, plus the store after apply_lp_solution; oracle: exact vertex enumeration + enumeration of small integer domains on models built through Model.",
+         "Lean 4 proof (decision-logic model + LP relaxation / duality) with exact differential correspondence of the router and the root LP construction",
+         "Propagation bounds of ConstraintAwareOptimizer and the LP solver's returned point are inputs of the model (supplied from the run); the search after a declined fast path is C04; LP solving is C09."),
  "C16": ("Theorems: C16_model_deterministic / C16_results_deterministic (the modelled search is a function of the model), permutation-invariance of every hash-ordered collection consumed on the solving path (registry queries sorted after collection, all-different validation under an adversary that reshuffles at every step, distinct counts, Hall removals commute, keyed access), C16_no_clock_in_result/_optimum/_enumeration (the clock only feeds limit tests); counterexamples for two public helpers that ARE order dependent (SparseSetGAC, create_precision_propagators). Tie: each generated call is run twice in fresh threads and in several separate OS processes (different SipHash keys); transcripts must be byte-identical.",
          "Lean 4 proof (permutation invariance of order-blind consumers) plus observed byte-identical transcripts across threads and OS processes",
          "Cross-process equality is observed on generated models, not proved; the site audit (every HashMap/HashSet iteration in src/) is by hand and listed in Lemmas/Determ.lean."),
@@ -65,7 +68,12 @@ P = {
          "The guard `ok` of the partial theorem excludes restores after union_with and non-LIFO restores (known findings)."),
 }
 
+# properties whose slice is being adapted to a fix: commit in /repo (not claimed until green again)
+HOLD = {"C08"}
+
 def main():
+    for h in HOLD:
+        P.pop(h, None)
     hooks = subprocess.run(["git", "-C", "/repo", "log", "--format=%H %s"], capture_output=True, text=True).stdout.splitlines()
     hook_commits = [l.split()[0] for l in hooks if "verif hook" in l]
     checks = []
